@@ -230,6 +230,45 @@ def check_poll_idle(ctx, P):
     o.check(bad is None, "idle loop polls", bad[0] if bad else None, site=bad[1] if bad else None, construct="idle thread does not poll")
 
 
+def check_backlog(ctx, P):
+    fs = P.fn("fiber_sleep")
+    o = ctx.ob("early.backlog", fs, "before fiber_sleep computes its deadline it brings the tick counter up to date: it reads the timer descriptor and hands the "
+               "count to fiber_event_wake_sleepers (expirations nobody has read yet happened *before* this sleep began)",
+               "the timer descriptor accumulates expirations while no thread polls (every kernel thread busy with fibers that do not yield): the next poller "
+               "adds the whole backlog to the counter after the sleeper has registered, and a 50 ms sleep that follows 400 ms of computation returns at once")
+    st = [s_ for s_ in fs.stores_to("waiter_el", "wake_time")]
+    isread = lambda c: c.k == "CallExpr" and ((c.indirect and fs.key(c.kids[0]) == ("glob", "fibershim_read")) or c.callee in ("read", "fibershim_read"))
+    reads = [c for c in fs.calls(pred=isread) if len(fs.args(c)) >= 3 and fs.key(fs.args(c)[0], True) == ("glob", "timer_fd")]
+    bad = None
+    if not st:
+        raise AnalysisBroken("fiber_sleep: wake_time store not found")
+    if not reads:
+        bad = ("fiber_sleep never reads the timer descriptor: unread expirations from before the call are credited to this sleeper", st[0].node, None)
+    else:
+        w = fs.dominated_by(st[0].node, nodeset(reads))
+        if w is not None:
+            bad = ("the deadline is computed on a path that has not drained the timer descriptor", st[0].node, w)
+        ws = fs.calls("fiber_event_wake_sleepers")
+        ok = False
+        for r in reads:
+            outs = [strip(a) for a in fs.args(r)[1:2]]
+            tgt = strip(outs[0].kids[0]) if outs and outs[0].k == "UnaryOperator" and outs[0].op == "&" else None
+            for wcall in ws:
+                a = strip(fs.args(wcall)[1])
+                if tgt is not None and a.k == "DeclRefExpr" and a.did == tgt.did:
+                    for rv in (-1, 8):
+                        if reach(fs, [wcall], atom_from([(lambda n, r=r: n is r, rv)]), start=r) != (rv == 8):
+                            bad = bad or ("after the drain read returned %d the count is %s handed to fiber_event_wake_sleepers" % (rv, "not" if rv == 8 else ""), wcall, None)
+                    # a complete read: the count reaches the counter before the deadline is computed
+                    if reach(fs, [st[0].node], atom_from([(lambda n, r=r: n is r, 8)]), start=r, barrier=nodeset([wcall])):
+                        bad = bad or ("after a complete drain read the deadline can be computed before the count was handed to fiber_event_wake_sleepers", st[0].node, None)
+                    ok = True
+        if not ok:
+            bad = bad or ("the count read from the timer is not handed to fiber_event_wake_sleepers before the deadline is computed", reads[0], None)
+    o.check(bad is None, "drain before deadline", bad[0] if bad else None, site=bad[1] if bad else None, witness=bad[2] if bad else None,
+            construct="deadline computed over an unread timer backlog")
+
+
 def check_tick(ctx, P):
     """units of the tick counter: it advances by u per timer expiration, expirations are T ms apart, sleepers add (ms + 1) and are woken by a
     strict comparison.  A sleeper registered just before a tick is woken at the k-th tick after it, k = floor((ms+1)/u) + 1, having slept
@@ -297,6 +336,7 @@ def check_early(ctx, P):
     o.check(bad is None, "16-case table", bad, site=rm.loc, construct="remove comparison")
 
     check_tick(ctx, P)
+    check_backlog(ctx, P)
     check_wake_count(ctx, P)
     check_poll_idle(ctx, P)
     fs = P.fn("fiber_sleep")
